@@ -1,9 +1,10 @@
 """C16 - log records decode for every combination of optional fields."""
 from __future__ import annotations
 
+import ast
 from typing import List, Tuple
 
-from .. import render, cstruct, sym
+from .. import consteval, render, cstruct, sym
 from ..model import AnalysisError, Repo
 from ..report import Run
 from ..sym import T, const, param
@@ -231,6 +232,27 @@ def check(repo: Repo, run: Run) -> None:
             run.ob("R2", MOD, "OsLogEvent", f"mandatory field {fname} always stored", fname in uncond,
                    f"field {fname} has no default and is not stored unconditionally: construction raises TypeError",
                    line=ci.node.lineno)
+    # R8: "absent fields keep their defaults": the default of an optional field is the empty value of its kind (None, 0,
+    # '', b'', False, an empty container), never a value a record could carry - otherwise a record without the key
+    # decodes like a record that has it
+    for fname, dflt in ci.fields:
+        if dflt is None:
+            continue
+        v = consteval.evaluate(repo, ci.module, dflt)
+        neutral = (v is None or (isinstance(v, (int, float, str, bytes, tuple, list, dict, set, frozenset)) and not v
+                                 and v is not consteval.UNKNOWN))
+        if not neutral and isinstance(dflt, ast.Call) and not dflt.args and not dflt.keywords and \
+                isinstance(dflt.func, ast.Name) and dflt.func.id in ("dict", "list", "set", "tuple", "str", "bytes", "int"):
+            neutral = True              # default_factory=dict / list ...
+        if not neutral and isinstance(dflt, (ast.Dict, ast.List, ast.Tuple, ast.Set)) and not (
+                dflt.keys if isinstance(dflt, ast.Dict) else dflt.elts):
+            neutral = True
+        run.ob("R8", MOD, "OsLogEvent", f"default of optional field {fname} is an empty value", neutral,
+               "" if neutral else
+               f"field {fname} defaults to {ast.unparse(dflt)[:60]}: a record that lacks the key decodes exactly like a record "
+               f"that carries this value, so absence is no longer visible in the decoded record", nontrivial=False,
+               line=getattr(dflt, "lineno", ci.node.lineno),
+               witness=f"a record without the raw key of {fname}")
     n_opt = sum(1 for k, v, cond in stores if cond)
     run.floor("R3", "optional keys", n_opt, 28)
     run.analysed["optional_keys"] = n_opt
@@ -280,7 +302,6 @@ def check(repo: Repo, run: Run) -> None:
                        facts={"layout_fields": sorted(leaves), "bits": got, "expected": list(want)}, line=pti.lineno)
 
     # ------------------------------------------------------------------ R5 registries applied to a byte
-    import ast
     n_reg = 0
     for regname in ("tracepoint_types", "tracepoint_flags"):
         node = mod.constants.get(regname)
